@@ -9,7 +9,9 @@ from refpgp import armor as rarmor, sig as rsig, wire, keys as rkeys
 LINES = ['', 'a', '-', '-a', '- a', '- -a', 'From x', '-----BEGIN PGP SIGNATURE-----', '-----BEGIN PGP SIGNED MESSAGE-----', 'a ', 'a\t', ' ',
          'été', '\U0001F600 smile', 'L' * 1000,
          # whitespace other than space and tab is NOT removed by RFC 4880 7.1; separators other than CR / LF do not end a line
-         'a\x0c', '\x0c', 'a\u00a0', 'a\x0b', 'x\u2028y\x85z']
+         'a\x0c', '\x0c', 'a\u00a0', 'a\x0b', 'x\u2028y\x85z',
+         # a carriage return that is not followed by a line feed is a character of the line (GnuPG 2.2.40 signs it so: vectors clear.*.doc.cr.txt.asc)
+         'x\ry']
 HASHES = ['SHA256', 'SHA512', 'SHA1', 'SHA384', 'SHA224', 'MD5']
 HASH_HDR = {'SHA256': 'SHA256', 'SHA512': 'SHA512', 'SHA1': 'SHA1', 'SHA384': 'SHA384', 'SHA224': 'SHA224', 'MD5': 'MD5'}
 
@@ -29,12 +31,12 @@ class Prop(object):
     ID = 'C11'
     LEVEL = 'model_checking'
     TECHNIQUE = 'exhaustive enumeration of texts over an adversarial line alphabet on the real cleartext writer/reader/signer/verifier, differential against an independent RFC 4880 section 7 implementation'
-    RULE = ('every sequence of 0..3 lines (thorough 0..4 over a reduced alphabet) over a 20-line alphabet (empty, dash lines, "- " lines, From lines, armor-looking lines, '
-            'trailing space / tab, blank, non-ASCII, non-BMP, 1000 characters, trailing form feed / vertical tab / no-break space, embedded U+2028 / U+0085) x joiner {LF, CRLF} x final line end {no, yes}; each written and read back by PGPy, '
+    RULE = ('every sequence of 0..3 lines (thorough 0..4 over a reduced alphabet) over a 21-line alphabet (empty, dash lines, "- " lines, From lines, armor-looking lines, '
+            'trailing space / tab, blank, non-ASCII, non-BMP, 1000 characters, trailing form feed / vertical tab / no-break space, embedded U+2028 / U+0085, carriage returns without line feed) x joiner {LF, CRLF} x final line end {no, yes}; each written and read back by PGPy, '
             'parsed and verified by the reference (7.1 canonical text), and written by the reference and verified by PGPy; hashes, signer counts and signing '
             'algorithms on a slice. One state = one (text, direction).')
     ASSUMPTIONS = ['refpgp.armor / refpgp.sig implement RFC 4880 7 and 7.1 (cross-checked at setup with the GnuPG-made cleartext fixtures)',
-                   'texts with lone CR are excluded: RFC 4880 does not say whether a lone CR ends a line']
+                   'a carriage return not followed by a line feed is read as a character of its line, as GnuPG 2.2.40 does (frozen vectors clear.*.doc.cr.txt.asc); a line that ENDS in a carriage return is not in the alphabet: written before a line feed it is indistinguishable from a CR LF line end']
     CASE_TIMEOUT = 900
 
     def bound(self, tier):
